@@ -31,11 +31,11 @@ INCONCLUSIVE_BUDGET = 0.03
 def plan(tier):
     if tier == 'thorough':
         return {'shards': 16, 'timeout_s': 1700}
-    return {'shards': 4, 'timeout_s': 280}
+    return {'shards': 8, 'timeout_s': 280}
 
 
 def n_cases(tier):
-    return 2500 if tier == 'thorough' else 110
+    return 2500 if tier == 'thorough' else 300
 
 
 def one_case(rng, tier):
